@@ -64,7 +64,40 @@ def is_subrecord(sub, base):
         rec = S.RECORDS.get(r)
         if rec:
             todo.extend(rec.bases)
+    u = S.RECORDS.get(base)
+    if u is not None and u.union and any(is_subrecord(sub, m) for m in u.union):
+        return True
     return False
+
+
+CLS_TAG = z3.Function("cls_tag", T.RefSort, z3.IntSort())
+
+
+def union_of(a, b):
+    """Name of a declared union record that has both record names among its members (or is one of them), else None."""
+    from . import spec as S
+    for name, rec in S.RECORDS.items():
+        if rec.union and all(x == name or any(is_subrecord(x, m) for m in rec.union) for x in (a, b)):
+            return name
+    return None
+
+
+def union_tag(uname, member):
+    from . import spec as S
+    for i, m in enumerate(S.RECORDS[uname].union):
+        if is_subrecord(member, m):
+            return i
+    raise UnsupportedError(f"{member} is not a member of union record {uname}")
+
+
+def widen_list_to_union(lst, uname, facts):
+    """List[Ref[M]] -> List[Ref[U]]: same references; every element gets the class tag of M."""
+    if lst.ty.elem.name == uname:
+        return lst
+    tag = union_tag(uname, lst.ty.elem.name)
+    i = z3.Int(V.fresh_name("qi"))
+    facts.append(z3.ForAll([i], z3.Implies(z3.And(0 <= i, i < V.list_len(lst)), CLS_TAG(V.list_get(lst, i).t) == tag)))
+    return Val(T.ListT(T.Ref(uname)), lst.parts)
 
 
 V.coerce = coerce   # values.* helpers (dict_set, list_append, ...) see string literals too
@@ -275,6 +308,11 @@ def list_concat(a, b, facts):
         return b
     if V.is_empty_literal(b):
         return a
+    if a.ty != b.ty and a.ty.elem.kind == "ref" and b.ty.elem.kind == "ref" and not is_subrecord(b.ty.elem.name, a.ty.elem.name):
+        u = union_of(a.ty.elem.name, b.ty.elem.name)
+        if u is not None:
+            a = widen_list_to_union(a, u, facts)
+            b = widen_list_to_union(b, u, facts)
     if a.ty != b.ty:
         b = coerce(b, a.ty)
     r = V.fresh(a.ty, "Lcat")
